@@ -1038,3 +1038,40 @@ Example ex_self_include :
              [98; 117; 105; 108; 100; 46; 110; 105; 110; 106; 97];
    Ok (mf_errors m)) = Ok [ERecursiveInclude].
 Proof. vm_compute. reflexivity. Qed.
+
+(* binding_error_recovery: the indented line "y" (no '='): error 3 at the Newline token, recovery by skipPastEOL *)
+Example ex_binding_error : exists p a p',
+  get_next MIdentifierSpecific (init [121; 10; 32; 32; 122; 32; 61; 32; 50; 10]) = Ok p /\
+  parse_binding_internal p = Ok (BRErr 3 a, p') /\ tk_kind a = TkNewline /\ cur_kind p' = TkIndentation.
+Proof.
+  eexists. eexists. eexists. split; [vm_compute; reflexivity|]. split; [vm_compute; reflexivity|]. split; reflexivity.
+Qed.
+
+(* block_line_item: the two indented lines "  y" and "  z = 2" give one item each *)
+Example ex_block_items : exists p f l p',
+  get_next MNone (init [32; 32; 121; 10; 32; 32; 122; 32; 61; 32; 50; 10]) = Ok p /\ cur_kind p = TkIndentation /\
+  block_loop (S f) p = Ok (l, p') /\
+  map (bitem_of [32; 32; 121; 10; 32; 32; 122; 32; 61; 32; 50; 10]) l = [BPErr 3; BBind [122] [50]] /\
+  cur_kind p' = TkEndOfFile.
+Proof.
+  eexists. exists 5%nat. eexists. eexists. split; [vm_compute; reflexivity|]. split; [reflexivity|].
+  split; [vm_compute; reflexivity|]. split; reflexivity.
+Qed.
+
+(* skip_past_eol_exact: its two premises at the state of [ex_skip] *)
+Example ex_skip_exact : exists t s t' s',
+  lex_to_eol MNone (mkTok TkEquals 5 1 1 5) (mkL (skipn 6 ex_src) 6 1 6) t s /\
+  lex_past_comments MNone s t' s' /\ tk_kind t = TkNewline /\ t' = mkTok TkIdentifier 11 1 2 0.
+Proof.
+  destruct ex_skip as [p' [E Ht]]. destruct (skip_past_eol_rule _ _ E) as [t [s [H1 [H2 _]]]].
+  cbn [p_mode p_tok p_lex] in H1, H2. exists t, s, (p_tok p'), (p_lex p'). split; [exact H1|]. split; [exact H2|].
+  split; [|exact Ht].
+  inversion H1 as [t0 s0 K|t0 s0 t1 s1 t2 s2 K E1 H3]; subst.
+  - destruct K as [K|K]; discriminate K.
+  - vm_compute in E1. inversion E1. subst t1 s1. clear E1.
+    inversion H3 as [t0 s0 K2|t0 s0 t1 s1 t2 s2 K2 E2 H4]; subst.
+    + destruct K2 as [K2|K2]; discriminate K2.
+    + vm_compute in E2. inversion E2. subst t1 s1. clear E2.
+      inversion H4 as [t0 s0 K3|t0 s0 t1 s1 t2 s2 K3 E3 H5]; subst; [reflexivity|].
+      exfalso. apply K3. left. reflexivity.
+Qed.
